@@ -269,6 +269,17 @@ func c03Generate(c *mon.Ctx) {
 		}
 	}
 
+	// 5f. a valid encoding with its prefix stripped (bare x, bare x||y), and coordinates in other arrangements
+	for _, pv := range []gen.PV{{P: g}, pool.NonInf[4], pool.NonInf[13]} {
+		u := oracle.EncU(pv.P)
+		emitBytes(u[1:], "prefix-stripped")
+		emitBytes(u[1:33], "prefix-stripped")
+		emitBytes(u[33:], "prefix-stripped")
+		emitBytes(append(append([]byte{}, u[33:]...), u[1:33]...), "prefix-stripped")
+		emitBytes(append([]byte{0}, u[1:]...), "prefix-stripped")
+		emitBytes(append(append([]byte{4}, u[1:]...), u[1:]...), "prefix-stripped")
+	}
+
 	// 5e. a valid encoding with one byte too many, every value, in front and behind
 	for _, enc := range [][]byte{oracle.EncC(g), oracle.EncU(g), {0}} {
 		for b := 0; b < 256; b++ {
